@@ -59,12 +59,28 @@ def _build(name):
         r.create_r_p = 0.5
         r.create_empty_p = 0.1
         return Union('C11', [(1, a), (1, r)], quick_runs=2500, thorough_runs=60000, batch=25)
+    from .engines import appendfault as AF
+    if name == 'C09':
+        return AF.ArrayAppendFault()
+    if name == 'C10':
+        return AF.RaggedAppendFault()
     raise KeyError(name)
+
+
+# (quick runs, thorough runs), calibrated on this box (16 workers): quick ~30-50 s, thorough ~10-15 min
+RUNS = {'C02': (8000, 160000), 'C03': (10000, 200000), 'C04': (3000, 60000), 'C05': (4000, 80000),
+        'C08': (2500, 50000), 'C09': (15000, 300000), 'C10': (5000, 100000), 'C11': (5000, 100000),
+        'C13': (8000, 160000)}
 
 
 def get(name):
     if name not in _CACHE:
-        _CACHE[name] = _build(name)
+        e = _build(name)
+        if name in RUNS:
+            e.quick_runs, e.thorough_runs = RUNS[name]
+        e.quick_wall_cap = 100.0
+        e.thorough_wall_cap = 1500.0
+        _CACHE[name] = e
     return _CACHE[name]
 
 
